@@ -24,7 +24,7 @@ func init() {
 	Register(&Check{
 		ID:  "C11",
 		Run: runC11,
-		Rule: "every call sequence of length <= L (quick 3, thorough 4) over a per-document menu of (operation, variables) calls, on one parsed executable, for 14 documents rich in the suspected carriers " +
+		Rule: "every call sequence of length <= L (quick 3, thorough 4) over a per-document menu of (operation, variables) calls, on one parsed executable, for 16 documents rich in the suspected carriers " +
 			"(variables inside list / input-object literals, arguments out of order or omitted, several operations, a fragment spread under two container types, directives on variables, undeclared arguments, introspection fragments shared between operations, literals of another kind than the argument type) x RS/AS/FS; " +
 			"oracle: differential with a fresh parse per call + printed form unchanged. distinct = (document, strategy, sequence); non-trivial = sequence has >= 2 different calls",
 		Technique:      "explicit-state exploration of call histories on the real API with a fresh-parse differential oracle (no state merging)",
@@ -49,6 +49,8 @@ type c11Doc struct {
 	c11Base
 	Text string // with Doc == nil: the document as text (introspection, other schemas)
 	Own  bool   // resolved on the C04 roots (one field per input type) instead of the universe
+	// MkRoot: a root of the document's own (one configuration)
+	MkRoot func() *ggql.Root
 }
 
 func c11Docs() []c11Base {
@@ -124,6 +126,13 @@ func c11AllDocs() []c11Doc {
 			"fragment S on __Schema { types { name } queryType { name } directives { locations } } fragment T on __Type { name fields { name } interfaces { name } }"},
 		// literals written in another kind than the argument's type (an integer for an ID, a Float, an Int64; a string for an ID;
 		// an enum for ...): coercion may not write its result back into the parsed request
+		// a condition variable that has no value (nullable, no default, left out): the complaint must come every time
+		c11Doc{c11Base: c11Base{Name: "condition-variable-without-value", Calls: []c11Call{{"T", nil}, {"T", map[string]interface{}{"a": true}}, {"T", map[string]interface{}{}}, {"T", map[string]interface{}{"a": false}}}},
+			Text: "query T($a: Boolean) { a @skip(if: $a) { id } kids @include(if: $a) { id } i }"},
+		// a fragment on an interface spread below two object types, one of which declares an argument the interface does not
+		c11Doc{c11Base: c11Base{Name: "interface-fragment-under-two-objects", Calls: []c11Call{{"A", nil}, {"B", nil}, {"C", nil}}},
+			Text:   "query A { dog { ...F } } query B { cat { ...F } } query C { pets { ...F } dog { ...G } } fragment F on Pet { name(style: \"x\") } fragment G on Pet { name(short: true) }",
+			MkRoot: func() *ggql.Root { return c10PetRoot() }},
 		c11Doc{c11Base: c11Base{Name: "literals-of-another-kind", Calls: []c11Call{{"", nil}, {"", map[string]interface{}{}}}}, Text: c11KindsText(), Own: true},
 	)
 }
@@ -220,7 +229,10 @@ func runC11(c *core.Ctx) {
 			text = cd.Doc.Render(world.LOneLine)
 			ft = cd.Doc.Features(s)
 		}
-		for _, nc := range cfgs {
+		for ci, nc := range cfgs {
+			if cd.MkRoot != nil && ci > 0 {
+				continue
+			}
 			if nc.Cfg.Strat != world.FS && (ft.UnionField || ft.AbstractCond) && cd.Name != "shared-fragment-two-containers" {
 				continue
 			}
@@ -269,7 +281,9 @@ func c11Run(c *core.Ctx, cd c11Doc, nc namedCfg, g *world.Graph, text string, se
 	}
 	var root *ggql.Root
 	var run *world.Run
-	if cd.Own {
+	if cd.MkRoot != nil {
+		root = cd.MkRoot()
+	} else if cd.Own {
 		root, _ = c04Root(nc.Cfg.Strat, c04SDL())
 	} else {
 		var err error
